@@ -98,11 +98,12 @@ Definition scale_elem (f : fmt) (raw machine : bool) (x : num) : outcome num :=
     end
   else Ok (NF (f64_mul_pow2 (num_to_f64 x) (nf f))).          (* float factor 1/(1 << -n_frac) *)
 
-(* _round: identity on integer and object dtypes, NumPy rounding on float64 *)
+(* _round: identity on integers (machine or Python), NumPy rounding on floats — float64
+   arrays as a whole, float elements of object arrays one by one (objects.py _round) *)
 Definition round_elem (r : rmode) (is_obj : bool) (x : num) : num :=
   match x with
   | NI z => NI z
-  | NF v => if is_obj then NF v else NF (np_round r v) end.
+  | NF v => NF (np_round r v) end.
 
 (* the integer an element denotes once it is cast to the storage dtype *)
 Definition elem_to_code (x : num) : outcome Z :=
